@@ -11,7 +11,7 @@ STUBS = [
     "multiple_composition_match -> cls('stub'); Validator.error_message -> '')",
     "ObjectMeta.__new__ runs under NoTracing (signature preserved)",
     "CrossHair contract enforcement interception disabled",
-    "ObjectMeta.__hash__ -> identity hash during symbolic runs",
+    "ObjectMeta.__hash__: the real one while statham code runs (traced, or untraced inside a harness real_hash() block); identity hash for CrossHair's own untraced internals (ABC caches)",
     "module-global `set` in statham.serializers.python / statham.schema.parser "
     "replaced by an insertion-ordered set model",
     "format() of Element/_Property objects returns a placeholder",
@@ -196,6 +196,28 @@ def install(message_stub=True, set_shim=True):
 
 
 _structural = False
+REAL_HASH = [0]
+
+
+def _is_tracing():
+    try:
+        from crosshair.tracers import is_tracing
+
+        return is_tracing()
+    except Exception:  # noqa
+        return False
+
+
+class real_hash:
+    """with real_hash(): ...   - concrete statham code run untraced by a harness sees the real ObjectMeta.__hash__"""
+
+    def __enter__(self):
+        REAL_HASH[0] += 1
+
+    def __exit__(self, *a):
+        REAL_HASH[0] -= 1
+        return False
+
 
 
 def install_structural(set_shim=True):
@@ -206,7 +228,21 @@ def install_structural(set_shim=True):
     _structural = True
     from statham.schema.elements.meta import ObjectMeta
 
-    ObjectMeta.__hash__ = lambda cls: type.__hash__(cls)
+    _orig_hash = ObjectMeta.__hash__
+
+    def _hash(cls):
+        # The real hash (class name + property names, realised by the ObjectMeta.__new__ stub) while statham code runs:
+        # under tracing, and inside harness blocks that run concrete code untraced (real_hash()).  CrossHair's own
+        # untraced internals (ABC caches hashing type(x), then comparing colliding classes that hold symbolic values)
+        # get the identity hash.
+        if REAL_HASH[0] or _is_tracing():
+            try:
+                return _orig_hash(cls)
+            except Exception:  # noqa
+                pass
+        return type.__hash__(cls)
+
+    ObjectMeta.__hash__ = _hash
     from statham.schema.elements.base import _AnonymousObject
 
     _orig_ga = _AnonymousObject.__getattr__
